@@ -2,6 +2,7 @@ import Model.C15
 import Generated.C15
 import Proofs.C15
 import Proofs.C15.Loop
+import Proofs.C15.Audit
 /-!
 # C15 — keys route to the next ACTIVE partition; partition states follow legal edges
 
@@ -65,6 +66,24 @@ example : keysByPartition pdEx [5, 0, 1] = .ok [(1, [0, 1, 2])] := by
   simp [keysByPartition, pdEx, PDesc.tokenParts, List.mergeSort, List.MergeSort.Internal.splitInTwo, Part.isActive]
   decide
 
+/-- `GetKeysByPartition` fails exactly when no partition is ACTIVE, or keys are given and no ACTIVE partition
+holds a token (an ACTIVE token-less partition passes the count test and fails in the lookup); … -/
+theorem keysByPartition_error (d : PDesc) (keys : List Nat) :
+    (∃ e, keysByPartition d keys = .error e) ↔
+      (d.parts.filter (·.isActive) = [] ∨ (keys ≠ [] ∧ activeTokens d = [])) :=
+  keysByPartition_error_iff d keys
+
+/-- … and then with "no active partition", never with an internal error. -/
+theorem keysByPartition_error_is_noActive (d : PDesc) (keys : List Nat) (e : C14.Err)
+    (h : keysByPartition d keys = .error e) : e = .noActivePartition :=
+  keysByPartition_error_class d keys e h
+
+/-- witness for the second disjunct: one ACTIVE partition without tokens -/
+example : keysByPartition { parts := [{ id := 1, state := sActive, tokens := [] }] } [5] = .error .noActivePartition ∧
+    keysByPartition { parts := [{ id := 1, state := sActive, tokens := [] }] } [] = .ok [] := by
+  constructor <;> simp [keysByPartition, Part.isActive, PDesc.tokenParts, List.mergeSort, groupStep, activeForOf, sActive,
+    List.zipIdx, searchToken, lowerBound, bind, Except.bind, pure, Except.pure]
+
 /-! ### state machine -/
 
 /-- **state edges + lock**: whatever an editor or a lifecycler writes — manual change, lock, owner
@@ -96,6 +115,24 @@ theorem promotion_guard (d d' : PDesc) (c : Cfg) (now : Int) (h : reconcileOwned
       ownersCountUpdatedBefore d c.pid (now - c.waitDur) ≥ c.waitCount ∧
       d' = { d with parts := setPart { p with state := sActive, stateTs := now } d.parts } :=
   reconcileOwned_guard d d' c now h
+
+/-- the converse: when the guard holds — PENDING, unlocked, at least `waitCount` owners updated strictly before
+`now - waitDuration` — `reconcileOwnedPartition` DOES write the switch to ACTIVE stamped `now`. -/
+theorem promotion_happens (d : PDesc) (c : Cfg) (now : Int) (p : Part) (hp : d.get? c.pid = some p)
+    (hst : p.state = sPending) (hl : p.locked = false)
+    (hcnt : ownersCountUpdatedBefore d c.pid (now - c.waitDur) ≥ c.waitCount) :
+    reconcileOwned d c now =
+      .ok (some { d with parts := setPart { p with state := sActive, stateTs := now } d.parts }) :=
+  reconcileOwned_promotes d c now p hp hst hl hcnt
+
+/-- only `SetPartitionStateChangeLock` changes a lock, and nothing changes tokens: after any other store update
+every partition has the lock flag, lock timestamp and tokens of the old partition with its id, or is new
+(PENDING and unlocked). -/
+theorem only_lock_changes_lock (d d' : PDesc) (op : Op) (h : step d op = .ok (some d'))
+    (hop : ∀ pid l now, op ≠ .lock pid l now) :
+    ∀ q ∈ d'.parts, (∃ p ∈ d.parts, p.id = q.id ∧ q.locked = p.locked ∧ q.lockedTs = p.lockedTs ∧ q.tokens = p.tokens) ∨
+      ((∀ p ∈ d.parts, p.id ≠ q.id) ∧ q.locked = false ∧ q.state = sPending) :=
+  non_lock_ops_keep_lock d d' op h hop
 
 /-- no other automatic handler (creation, registration, the other reconcile half, shutdown, lock,
 owner removal) changes the state of any partition. -/
@@ -174,6 +211,28 @@ theorem starting_registers (l : Loop) (d : PDesc) (tokens : List Nat) (now : Int
     (h : step d (l.startOp tokens now) = .ok r) : Registered l (C15.apply d (l.startOp tokens now)) :=
   start_registers l d tokens now r h
 
+/-- `waitPartitionAndRegisterOwner` polls for the partition with plain reads and then registers in a CAS that
+does NOT re-check: whatever the ring looks like when that CAS runs, it succeeds and registers the owner. -/
+theorem wait_cas_is_unconditional (l : Loop) (d : PDesc) (now : Int) :
+    (∃ r, step d (.wait l.cfg now) = .ok r) ∧ Registered l (C15.apply d (.wait l.cfg now)) :=
+  wait_registers_unconditionally l d now
+
+def waiter : Loop := { cfg := { pid := 1, inst := "w" }, createOnStartup := false }
+def deleter : Loop := { cfg := { pid := 2, inst := "x", deleteAfter := 5 } }
+def raceRing : PDesc :=
+  { parts := [{ id := 1, state := sInactive, stateTs := 0, tokens := [5] }, { id := 2, tokens := [6] }],
+    owners := [{ id := "x", partition := 2 }] }
+/-- WITNESS (time-of-check/time-of-use, as in the code): the waiter polls and sees partition 1; another
+lifecycler's tick deletes it (inactive long enough, no owners — the deletion guard holds); the waiter's
+registration CAS then leaves an owner registered for a partition that no longer exists. No clause of C15
+forbids this end state; the model has to allow it because the code does (confirmed by the `C15.cas` poll-race
+stream). -/
+theorem wait_registers_for_deleted_partition_witness :
+    (sysRun [waiter, deleter] { ring := raceRing, phase := fun i => if i = 1 then .running else .new }
+      [.poll 0, .event 1 (.tick 100 100), .start 0 [] 101 (102, 102)]).ring =
+    { parts := [{ id := 2, tokens := [6] }],
+      owners := [{ id := "w", partition := 1, updatedTs := 101 }, { id := "x", partition := 2 }] } := by decide
+
 def loopEx : Loop := { cfg := { pid := 1, inst := "a", waitCount := 0 } }
 example : (sysRun [loopEx] { ring := {}, phase := fun _ => .new }
       [.start 0 [5] 10 (11, 11), .event 0 (.actor sInactive 12), .event 0 (.tick 13 13)]).ring =
@@ -182,11 +241,30 @@ example : (sysRun [loopEx] { ring := {}, phase := fun _ => .new }
 example : DistinctOwners [loopEx] := by
   intro i j li lj hi hj _
   cases i <;> cases j <;> simp_all
+/-- non-vacuity with two lifecyclers: distinct owner ids, and a schedule with an editor call that is `GoodRun` -/
+example : DistinctOwners [waiter, deleter] := by
+  intro i j li lj hi hj h
+  match i, j with
+  | 0, 0 => rfl
+  | 1, 1 => rfl
+  | 0, 1 => simp [waiter, deleter] at hi hj; subst hi; subst hj; simp [Cfg.ownerID] at h
+  | 1, 0 => simp [waiter, deleter] at hi hj; subst hi; subst hj; simp [Cfg.ownerID] at h
+  | i + 2, _ => simp [waiter, deleter] at hi
+  | 0, j + 2 => simp [waiter, deleter] at hj
+  | 1, j + 2 => simp [waiter, deleter] at hj
+example : GoodRun [waiter, deleter] { ring := raceRing, phase := fun _ => .new }
+    [.start 1 [] 1 (2, 2), .editor (.lock 1 true 3), .poll 0, .start 0 [] 4 (5, 5), .event 1 .stop] := by
+  simp [GoodRun, GoodAct, isEditorOp, touches]
 
 /-! ### CAS retries
 
-Every handler is the function handed to `kv.Client.CAS`; when another actor writes between the handler's run
-and the store's compare, the store runs the handler again on the fresh ring and discards the earlier attempt. -/
+Every `Op` is the function handed to `kv.Client.CAS`; when another actor writes between the function's run and
+the store's compare, the store runs the function again on the fresh ring and discards the earlier attempt. For
+`waitPartitionAndRegisterOwner` that function is only the unconditional registration (`Op.wait`): its existence
+check is a plain read made BEFORE the CAS (`pollSees`, `Act.poll`) and is not repeated — see
+`wait_cas_is_unconditional` and the witness above. Scope: stores that update by CAS on the whole ring (consul,
+etcd, the in-memory mock); the memberlist store merges concurrent versions with `PartitionRingDesc.Merge`
+(tombstones, newest-timestamp-wins), which is property C03's subject and not modelled here. -/
 
 /-- **a CAS retry is the handler re-run on the fresh state**: whatever the attempts on stale values decided,
 the outcome of the update is the handler applied to the last value read … -/
